@@ -31,7 +31,8 @@ COMMON_TRUSTED = [
     "inductive definition; trusted",
     "partial correctness: recursive calls and pure-function axioms assume the callee contract (termination not proved "
     "unless a decreases clause is listed)",
-    "z3 (E-matching, mbqi off); cvc5 as second opinion in the thorough tier",
+    "z3 5.1 (E-matching, mbqi off) decides the obligations; cvc5 1.0 takes the obligations on which z3's E-matching gives up "
+    "(an unsat of either is a proof) and, in the thorough tier, re-checks every obligation z3 proved (coverage.cvc5_second_opinion)",
     "the class table / function bodies read from the source tree are what runs (no monkey patching)",
 ]
 
@@ -61,12 +62,28 @@ def write_replay(pid, payload):
 
 
 def match_known(known, pid, name, replay):
-    """a known finding matches one named obligation (or bounded check) together with its recorded witness"""
+    """a known finding matches one named obligation (or bounded check).  The name of a bounded check encodes the class of
+    the failing input; an entry may instead give `obligation_regex` (a family of input classes with one recorded root
+    cause) and / or `witness_match` (fields of the failing input that must be equal: the finding is then that very input)"""
+    import re
     for k in known.get('findings', []):
         if k.get('property') != pid or k.get('status') != 'known':
             continue
-        if k.get('obligation') == name:
-            return k
+        if 'obligation_regex' in k:
+            if not re.search(k['obligation_regex'], name):
+                continue
+        elif k.get('obligation') != name:
+            continue
+        wm = k.get('witness_match')
+        if wm:
+            if not isinstance(replay, dict) or any(replay.get(a) != b for a, b in wm.items()):
+                continue
+        wa = k.get('witness_any')
+        if wa:
+            # the finding is a list of concrete inputs: the reported (first) failing input of this class must be one of them
+            if not isinstance(replay, dict) or not any(all(replay.get(a) == b for a, b in w.items()) for w in wa):
+                continue
+        return k
     return None
 
 
@@ -90,8 +107,9 @@ def run(pid, tier, seed, update_ledger=False):
         axioms_checked = dict(validated=len(ck), skipped=[n for n, _ in sk], failed=[n for n, _ in fl])
         for n, m in fl:
             errors.append('prelude axiom %s is %s: proofs that use it cannot be trusted' % (n, m))
-        E, results = driver.verify(prop.FUNCTIONS, prop.SIDECARS, timeout_ms=timeout_ms)
+        E, results = driver.verify(prop.FUNCTIONS, prop.SIDECARS, timeout_ms=timeout_ms, second_opinion=(tier == 'thorough'))
     n_obl = n_dis = 0
+    second = {}
     solver_s = 0.0
     per_func = []
     failed = []
@@ -117,9 +135,16 @@ def run(pid, tier, seed, update_ledger=False):
                     errors.append('%s: assumptions are contradictory (cover proved False)' % o['name'])
                 continue
             n_obl += 1
+            if o.get('cvc5') is not None:
+                second[o['cvc5'] if o['cvc5'] in ('unsat', 'sat', 'unknown', 'timeout') else 'no-answer'] = \
+                    second.get(o['cvc5'] if o['cvc5'] in ('unsat', 'sat', 'unknown', 'timeout') else 'no-answer', 0) + 1
+                if o['cvc5'] == 'sat':
+                    errors.append('%s: z3 proves the obligation but cvc5 answers sat (back ends disagree)' % o['name'])
             if o['status'] == 'proved':
                 n_dis += 1
                 nd += 1
+                if str(o.get('backend', '')).startswith('cvc5'):
+                    backends['cvc5 (after z3 gave up)'] = backends.get('cvc5 (after z3 gave up)', 0) + 1
             elif o['status'] == 'failed':
                 failed.append((fr, i, o))
             elif o['status'] == 'undecided':
@@ -240,6 +265,7 @@ def run(pid, tier, seed, update_ledger=False):
                     % (pid, tier, os.environ.get('HEPH_REPO', '/repo'), __import__('z3').get_version_string(), timeout_ms),
         trusted_base=COMMON_TRUSTED + list(getattr(prop, 'TRUSTED', [])),
         prelude_axioms=axioms_checked,
+        cvc5_second_opinion=(second if tier == 'thorough' else 'thorough tier only'),
         functions_under_contract=per_func,
         functions_not_under_contract=list(getattr(prop, 'NOT_UNDER_CONTRACT', [])),
         solver_seconds=round(solver_s, 2),
